@@ -107,4 +107,27 @@ theorem setMeta_unguarded_without_asserts :
     (stepSrc hc true false mutSrc s (.setMeta 0 (some true))).2 matches .ok ∧
     ((stepSrc hc true true mutSrc s (.setMeta 0 (some true))).1.g.node 0).mflag = none := by decide
 
+/-! ### `AssertsEnabled` is satisfiable, on a non-trivial state (audit round 8, item 6)
+    two nodes, node 0 (sealed) referring to node 1 (sealed); `ae = true`. -/
+
+def aeHC : HC Nat := { H := fun l => l.length, emb := fun d => [d], le := fun a b => decide (a ≤ b) }
+def aeState : St Nat :=
+  { g := { nodes := [{ typeId := [1], args := [{ name := [120], value := .ref 1 }], sealed := true },
+                     { typeId := [2], args := [{ name := [121], value := .int 3 }], sealed := true }] },
+    c := Caches.empty }
+
+example : AssertsEnabled true := rfl
+/-- under `AssertsEnabled` the sealed configurations of `aeState` really reject an assignment, a meta flag change and a
+    pre-task, on both nodes, and a history of three attempts leaves both nodes what they were (`sealed_rejects_src`,
+    `sealed_frozen_src`, `stepSrc_eq_step`, `runSrc_eq_run` instantiated). -/
+example : (stepSrc aeHC true true mutSrc aeState (.set 1 [121] (.int 9))).2 matches .sealedError := by decide
+example : (stepSrc aeHC true true mutSrc aeState (.setMeta 0 (some true))).2 matches .sealedError := by decide
+example : (stepSrc aeHC true true mutSrc aeState (.addPretask 0 1)).2 matches .sealedError := by decide
+example : runSrc aeHC true true aeState [.set 1 [121] (.int 9), .setMeta 0 (some true), .addPretask 0 1] = aeState := by
+  have h0 := sealed_rejects_src aeHC true true rfl aeState 0 rfl
+  have h1 := sealed_rejects_src aeHC true true rfl aeState 1 rfl
+  simp [runSrc, h0.2.1, h0.2.2, h1.1]
+example : ∀ name v, stepSrc aeHC true true mutSrc aeState (.set 0 name v) = (aeState, .sealedError) :=
+  (sealed_rejects_src aeHC true true rfl aeState 0 rfl).1
+
 end XpmVerif.C14Src
